@@ -23,7 +23,7 @@ TRANSPARENT = [
     (r"alloc::boxed::Box::<T>::(new|pin)$", None),
     (r"core::mem::manually_drop::ManuallyDrop::<T>::(new|into_inner|take)$", None),
     (r"core::mem::(take|replace)$", [0]),
-    (r"tokio::sync::mutex::Mutex::<T>::(new|into_inner)$", None),
+    (r"tokio::sync::(mutex::Mutex|rwlock::RwLock)::<T>::(new|into_inner)$", None),
     (r"parking_lot::.*::(new|into_inner)$", None),
     (r"alloc::sync::Arc::<T(, A)?>::(try_unwrap|into_inner|downgrade)$", None),
     (r"core::iter::traits::collect::IntoIterator::into_iter$", None),
@@ -93,15 +93,26 @@ def origins_of_operand(body, op, extra_transparent=(), through_agg=True, stop_at
     return origins_of_place(body, p, extra_transparent, through_agg, stop_at)
 
 
+def _fields(proj):
+    """Field / variant steps of a projection (derefs and casts are transparent)."""
+    return tuple(e for e in proj if e.startswith("f:") or e.startswith("d:"))
+
+
+def _field_idx(e):
+    return int(e.rsplit("#", 1)[1])
+
+
 def origins_of_place(body, place, extra_transparent=(), through_agg=True, stop_at=None):
+    """Origins of the value stored at `place`.  Field-sensitive across tuple/ADT aggregates:
+    `x = (a, b); y = x.1` gives the origins of `b` only."""
     out = set()
     seen = set()
-    work = [(place[0], tuple(place[1]))]
+    work = [(place[0], _fields(place[1]))]
     while work:
         l, proj = work.pop()
-        if l in seen:
+        if (l, proj) in seen:
             continue
-        seen.add(l)
+        seen.add((l, proj))
         if 1 <= l <= body.argc:
             fields = [e for e in proj if e.startswith("f:")]
             out.add(Origin("param", None, "_%d%s" % (l, ("." + fields[0][2:].split("#")[0]) if fields else "")))
@@ -114,6 +125,13 @@ def origins_of_place(body, place, extra_transparent=(), through_agg=True, stop_a
                 out.add(Origin("stop", site, None))
                 continue
             if kind == "assign":
+                lp = _fields(node["lhs"][1])
+                rest = proj
+                if lp:
+                    # a partial assignment `l.f = ...`: relevant if we look at the whole of l or at that field
+                    if proj and proj[:len(lp)] != lp and lp[:len(proj)] != proj:
+                        continue
+                    rest = proj[len(lp):] if proj[:len(lp)] == lp else ()
                 rv = node["rv"]
                 k = rv["k"]
                 if k in ("use", "repeat", "cast"):
@@ -124,27 +142,42 @@ def origins_of_place(body, place, extra_transparent=(), through_agg=True, stop_a
                     else:
                         pl = op_place(o)
                         if pl is not None:
-                            work.append((pl[0], tuple(pl[1])))
+                            work.append((pl[0], _fields(pl[1]) + rest))
                 elif k in ("ref", "rawptr", "disc"):
                     pl = rv["pl"]
-                    work.append((pl[0], tuple(pl[1])))
+                    work.append((pl[0], _fields(pl[1]) + rest))
                 elif k == "agg":
                     out.add(Origin("agg", site, None))
                     if through_agg:
-                        for o in rv["ops"]:
+                        ops = list(enumerate(rv["ops"]))
+                        sel = rest
+                        if sel and rv.get("ak") in ("tuple", "adt", "closure", "coroutine"):
+                            steps = list(sel)
+                            if steps and steps[0].startswith("d:"):
+                                if rv.get("ak") == "adt" and _field_idx(steps[0]) != int(rv.get("variant", 0)):
+                                    continue
+                                steps = steps[1:]
+                            if steps and steps[0].startswith("f:"):
+                                i = _field_idx(steps[0])
+                                ops = [(i, rv["ops"][i])] if i < len(rv["ops"]) else []
+                                sel = tuple(steps[1:])
+                            else:
+                                sel = tuple(steps)
+                        else:
+                            sel = ()
+                        for i, o in ops:
                             pl = op_place(o)
                             if pl is not None:
-                                work.append((pl[0], tuple(pl[1])))
+                                work.append((pl[0], _fields(pl[1]) + sel))
                             elif o.get("c") is not None:
-                                c = o["c"]
-                                out.add(Origin("const", None, c.get("s") or (c.get("fn") or {}).get("path")))
+                                out.add(Origin("const", None, _const_info(o["c"])))
                 elif k in ("bin", "un"):
                     out.add(Origin("bin", site, rv["op"]))
                     for key in ("a", "b"):
                         if key in rv:
                             pl = op_place(rv[key])
                             if pl is not None:
-                                work.append((pl[0], tuple(pl[1])))
+                                work.append((pl[0], _fields(pl[1])))
                             elif rv[key].get("c") is not None:
                                 out.add(Origin("const", None, rv[key]["c"].get("s")))
                 else:
@@ -165,10 +198,11 @@ def origins_of_place(body, place, extra_transparent=(), through_agg=True, stop_a
                         if i < len(args):
                             pl = op_place(args[i])
                             if pl is not None:
-                                work.append((pl[0], tuple(pl[1])))
+                                # wrappers like Some/unwrap/deref change the shape: drop the pending field path
+                                work.append((pl[0], _fields(pl[1])))
                                 any_followed = True
                             elif args[i].get("c") is not None:
-                                out.add(Origin("const", None, args[i]["c"].get("s")))
+                                out.add(Origin("const", None, _const_info(args[i]["c"])))
                                 any_followed = True
                     if not any_followed:
                         out.add(Origin("call", site, None))
